@@ -34,6 +34,9 @@ def wrongName : String := "Wrong device name"
 /-- `out := <reply>` / `out = <reply>` -/
 def outDecl : Prog := .assign .out true false .reply
 def outSet : Prog := .assign .out false false .reply
+/-- `out := <reply>` in LoadDevice, where the connection handle of the inlined GetSSHConn is the first
+reply variable: the variable prints as `r2` -/
+def cfgDecl : Prog := .assign .out true true .reply ;; .note "assign" "r2 := <reply>"
 
 /-! ## cisco (ASA, IOS) -/
 
@@ -99,9 +102,9 @@ def parseConfig : Prog :=
 
 /-- `console.GetSSHConn` (inlined by the translator: it is the only thing between the credentials
 and the login dialogue that touches the wire) -/
-def sshConn (field : String) : Prog :=
-  .send "SpawnWithArgs" "" .connect .fail ;; .note "assign" "r1, _, err := <reply>" ;;
-  .note "assign" (field ++ ", err = <reply>")
+def sshConn : Prog :=
+  errRet "nil, err" ;;
+  .send "SpawnWithArgs" "" .connect .fail ;; .note "assign" "r1, _, err := <reply>"
 
 def asaSetTerminal : Prog :=
   .send "GetCmdOutput" "\"sh pager\"" (.lit "sh pager") .abort ;; outDecl ;;
@@ -126,14 +129,14 @@ def asaCheckDeviceName : Prog :=
 
 def ciscoPreLogin : Prog :=
   errRet "nil, err" ;;
-  sshConn "recv.Conn" ;; errRet "nil, err"
+  sshConn ;; errRet "nil, err"
 
 def asaPostLogin : Prog :=
   .call "setTerminal" asaSetTerminal ;;
   .call "logVersion" asaLogVersion ;;
   .call "checkDeviceName" asaCheckDeviceName ;;
-  .send "GetCmdOutput" "\"write term\"" (.lit "write term") .abort ;; outDecl ;;
-  pureCall parseConfig ;; .note "assign" "v1, err ⇐ r1" ;;
+  .send "GetCmdOutput" "\"write term\"" (.lit "write term") .abort ;; cfgDecl ;;
+  pureCall parseConfig ;; .note "assign" "v1, err ⇐ r2" ;;
   .note "ret" "v1, err"
 
 def asaLoadDevice : Prog := ciscoPreLogin ;; .call "LoginEnable" ciscoLoginEnable ;; asaPostLogin
@@ -154,8 +157,8 @@ def iosPostLogin : Prog :=
   .call "setTerminal" iosSetTerminal ;;
   .call "logVersion" iosLogVersion ;;
   .call "checkDeviceName" iosCheckDeviceName ;;
-  .send "GetCmdOutput" "\"sh run\"" (.lit "sh run") .abort ;; outDecl ;;
-  pureCall parseConfig ;; .note "assign" "v1, err ⇐ r1" ;;
+  .send "GetCmdOutput" "\"sh run\"" (.lit "sh run") .abort ;; cfgDecl ;;
+  pureCall parseConfig ;; .note "assign" "v1, err ⇐ r2" ;;
   .note "ret" "v1, err"
 
 def iosLoadDevice : Prog := ciscoPreLogin ;; .call "LoginEnable" ciscoLoginEnable ;; iosPostLogin
@@ -206,7 +209,7 @@ def linuxGetRoutes : Prog :=
 
 def linuxPreBanner : Prog :=
   errRet "nil, err" ;;
-  sshConn "recv.conn" ;; errRet "nil, err" ;;
+  sshConn ;; errRet "nil, err" ;;
   .call "loginEnable" linuxLoginEnable ;;
   .call "logVersion" linuxLogVersion ;;
   .call "checkDeviceName" linuxCheckDeviceName
@@ -258,9 +261,9 @@ def panCheckHA : Prog :=
   .note "assign" "err, v2 ⇐ v1" ;;
   errRet "false" ;;
   .note "guard" "v2.Enabled != \"yes\"" ;; .block (.note "ret" "true") ;;
-  .note "switch" "v2.Mode" ;;
-  .block (.note "case" "\"Active-Passive\"" ;; .block (.note "ret" "v2.State == \"active\"") ;;
-          .note "case" "\"Active-Active\"" ;; .block (.note "ret" "v2.State == \"active-primary\"")) ;;
+  -- `switch ha.Mode` = dispatch on constants: one guard per branch, sorted by the test
+  .note "guard" "v2.Mode == \"Active-Active\"" ;; .block (.note "ret" "v2.State == \"active-primary\"") ;;
+  .note "guard" "v2.Mode == \"Active-Passive\"" ;; .block (.note "ret" "v2.State == \"active\"") ;;
   .note "ret" "false"
 
 /-- the closure passed to TryReachableHTTPLogin, for name `n` of the name list -/
@@ -336,7 +339,7 @@ def panGetChanges : Prog :=
      .note "guard" "c1p2 == nil" ;; .block (.note "ret" "nil") ;;
      .call "checkUnmanaged" panCheckUnmanaged ;;
      .note "ret" "nil") ;;
-  .note "ret" "err"
+  .note "ret" "processVsysPairs(…)"
 
 /-! ## NSX -/
 
@@ -605,8 +608,8 @@ def tryReachableSkel : List Item := [
   (0, "guard", "err != nil"), (1, "ret", "err"),
   (0, "for", "range v1"),
   (1, "guard", "err != nil"), (2, "ret", "err"),
-  (1, "call", "p3"), (1, "guard", "err != nil"), (2, "warn", ""), (2, "continue", ""),
-  (1, "ret", "nil"),
+  (1, "call", "p3"), (1, "guard", "err == nil"), (2, "ret", "nil"),
+  (1, "warn", ""),
   (0, "ret", "Errorf(…)")]
 
 def nsxSendRequestSkel : List Item := [
@@ -687,31 +690,37 @@ def quietFlag : String := boolFlag ("quiet", "q") "No info messages"
 
 def frontEndFacts : List (String × List Item) := [
   ("drc.Main", [
-    (0, "switch", "len(v2)"),
-    (1, "case", "0"), (2, "fallthrough", ""),
-    (1, "case", "default"), (2, "ret", "1"),
-    (1, "case", "1"),
-    (3, "ret", "abort(…)"),
-    (3, "ret", "abort(…)"),
-    (2, "call", "device.ApproveOrCompare(" ++ boolFlag drcCompareFlag "Compare only" ++ ", v2[0], v3, " ++
+    (0, "guard", "err != nil"),
+    -- `switch len(args)`: dispatch on constants = one guard per terminating branch, default last
+    (0, "guard", "len(v2) == 1"),
+    (1, "guard", "err != nil"), (2, "ret", "abort(…)"),
+    (1, "guard", "err != nil"), (2, "ret", "abort(…)"),
+    (1, "call", "device.ApproveOrCompare(" ++ boolFlag drcCompareFlag "Compare only" ++ ", v2[0], v3, " ++
       strFlag drcLogDirFlag "Path for saving session logs" ++ ", " ++
       strFlag ("LOGFILE", "") "Path to redirect STDERR" ++ ", " ++ quietFlag ++ ")"),
-    (2, "ret", "ApproveOrCompare(…)"),
-    (1, "case", "2"),
-    (3, "ret", "1"),
-    (2, "call", "device.CompareFiles(v2[0], v2[1], " ++ quietFlag ++ ")"),
-    (2, "ret", "CompareFiles(…)")]),
+    (1, "ret", "ApproveOrCompare(…)"),
+    (0, "guard", "len(v2) != 2"), (1, "ret", "1"),
+    (0, "guard", "v4 && v5 > 1 || !v4 && v5 > 0"), (1, "ret", "1"),
+    (0, "call", "device.CompareFiles(v2[0], v2[1], " ++ quietFlag ++ ")"),
+    (0, "ret", "CompareFiles(…)")]),
   ("doapprove.Main",
-    [ (0, "assign", "v3 := path.Join(path.Join(v4, \"log\"), v2[1])"),
-      (0, "switch", "v2[0]") ] ++
-    doApproveCases.flatMap (fun c =>
-      [(1, "case", q c.1), (2, "assign", "v3 = v3 + " ++ q c.2)]) ++
-    [ (1, "case", "default"), (2, "ret", "1"),
-      (0, "call", "device.ApproveOrCompare(v2[0] == " ++ q doApproveCompareWord ++
+    -- `switch action`: the branches sorted by their test (approve < compare); the last one shares its
+    -- else with `default` (usage error), which as the terminating branch becomes the guard
+    [ (0, "guard", "err != nil"),
+      (0, "guard", "len(v2) != 2"),
+      (0, "assign", "v3 := path.Join(path.Join(v4, \"log\"), v2[1])") ] ++
+    (match doApproveCases with
+     | [c1, c2] =>
+       [ (0, "if", "v2[0] == " ++ q c2.1), (1, "assign", "v3 = v3 + " ++ q c2.2),
+         (0, "else", ""),
+         (1, "guard", "v2[0] != " ++ q c1.1), (2, "ret", "1"),
+         (1, "assign", "v3 = v3 + " ++ q c1.2) ]
+     | _ => []) ++
+    [ (0, "call", "device.ApproveOrCompare(v2[0] == " ++ q doApproveCompareWord ++
         ", path.Join(v4, \"code\", v2[1]), v5, path.Join(v4, \"log\"), v3, false)") ])]
 
 def isFrontEndItem (it : Item) : Bool :=
-  it.2.1 == "assign" || it.2.1 == "switch" || it.2.1 == "case" || it.2.1 == "fallthrough" ||
+  it.2.1 == "assign" || it.2.1 == "guard" || it.2.1 == "if" || it.2.1 == "elif" || it.2.1 == "else" ||
     it.2.1 == "ret" || (it.2.1 == "call" && hasPrefix it.2.2 "device.")
 
 end NA.Gate
